@@ -44,6 +44,10 @@ func EnumHistories() []History {
 		{Step{Op: OpUpdateSub, Period: 0, Sub: 1, N: 2, K: 0, Split: &Split{Point: PtUpdate, Target: 1}}, -1},
 		{Step{Op: OpComplete, Period: 0, Split: &Split{Point: PtComplete, Target: 0}}, -1},
 		{Step{Op: OpError, Period: 0, Split: &Split{Point: PtError, Target: 1}}, -1},
+		{Step{Op: OpEvent, Period: 0, N: 2, K: 0, Split: &Split{Point: PtWFlush, Target: 0}}, -1},
+		{Step{Op: OpEvent, Period: 0, N: 2, K: 0, Split: &Split{Point: PtWFlush, Target: 1}}, -1},
+		{Step{Op: OpComplete, Period: 0, Split: &Split{Point: PtWComplete, Target: 1}}, -1},
+		{Step{Op: OpError, Period: 0, Split: &Split{Point: PtWError, Target: 0}}, -1},
 		{Step{Op: OpSubscribe, Sub: 3, Conn: 3, Key: 2, Split: &Split{Point: PtStart}}, 2},
 		{Step{Op: OpSubscribe, Sub: 3, Conn: 3, Key: 2, Split: &Split{Point: PtInit}}, 2},
 		{Step{Op: OpSubscribe, Sub: 3, Conn: 3, Key: 2, Hook: HookEmit, StartMode: StartBlock, Split: &Split{Point: PtStart}}, 2},
@@ -148,16 +152,14 @@ func EnumAdmissible(in History) (h History, ok bool, shapes []string) {
 			}
 			c.Open()
 			c.Begin(st, true)
-			blocked := 0
+			blocked, writerBlocked := 0, false
 			for _, n := range st.Split.Nested {
-				if !stepAdmissible(c, n, &st) {
+				if !stepAdmissible(c, n, &st) || !c.NestedAdmissible(st, n, blocked, writerBlocked) {
 					return h, false, nil
 				}
-				if Blocks(st, n) {
+				if c.Blocks(st, n) {
 					blocked++
-					if blocked > 1 {
-						return h, false, nil
-					}
+					writerBlocked = writerBlocked || c.BlocksOnWriter(st, n)
 					continue
 				}
 				c.Open()
@@ -179,11 +181,6 @@ func stepAdmissible(m *Model, st Step, parent *Step) bool {
 	case OpSubscribe:
 		if st.Sub != len(m.Subs) {
 			return false
-		}
-		if parent != nil && HoldsUpdater(*parent) && st.Hook == HookEmit {
-			if p := m.LivePeriod(st.Key); p != nil && p.Idx == parent.Period {
-				return false
-			}
 		}
 	case OpEvent, OpUpdateSub, OpComplete, OpError, OpCloseSub, OpHeartbeat:
 		if st.Period >= len(m.Periods) {
